@@ -34,22 +34,28 @@ TREE_RULE = ('choice tape -> key-universe size in {4,8,12,16,32,64,128,256} and 
 TREE_ASSUME = COMMON_ASSUME + ['model: std::map<int, node*>; the walk reads the public node fields and decodes parent_ as documented in the header',
                                'histories are bounded by 400 operations and 256 live keys']
 
+# second node layout of avl.h / rbt.h: separate parent + factor / colour members (selected when A_SIZE_POINTER is small)
+UNPACKED = config_defs() + ['-DA_SIZE_POINTER=1']
+UNPACKED_CFG = 'A_SIZE_POINTER=1: unpacked node layout (separate parent and balance/colour members)'
+
 PROPS['C01'] = dict(
     level='exploration', rule=TREE_RULE, assumptions=TREE_ASSUME,
-    units=lambda tier, seed: [Unit('avl', 'exec/trees.cc', ['avl.c'], exec_defs=['-DVP_PROP=1'], tape_len=400)] +
+    units=lambda tier, seed: [Unit('avl', 'exec/trees.cc', ['avl.c'], exec_defs=['-DVP_PROP=1'], tape_len=400),
+                              Unit('avl-unpacked', 'exec/trees.cc', ['avl.c'], defs=UNPACKED, exec_defs=['-DVP_PROP=1'], tape_len=400, config=UNPACKED_CFG)] +
     ([Unit('avl-O2', 'exec/trees.cc', ['avl.c'], exec_defs=['-DVP_PROP=1'], tape_len=600, opt='-O2', fuzz=False)] if tier == 'thorough' else []),
-    plan={'quick': dict(rc_procs=10, rc_cases=6000, fuzz_procs=6, fuzz_secs=25),
-          'thorough': dict(rc_procs=8, rc_cases=60000, fuzz_procs=8, fuzz_secs=240)},
+    plan={'quick': dict(rc_procs=6, rc_cases=6000, fuzz_procs=3, fuzz_secs=25),
+          'thorough': dict(rc_procs=6, rc_cases=60000, fuzz_procs=5, fuzz_secs=240)},
     technique='model-based stateful property-based testing (rapidcheck choice tapes, std::map model, full invariant walk after every call) + coverage-guided libFuzzer on the same executor under ASan/UBSan',
     level_text='generated insert/remove/lookup histories against a reference model with every structural invariant of the statement checked after every call; sampling, not proof',
     level_note='trusts the std::map model and the invariant walker in exec/trees.cc; histories <= 400 ops, <= 256 keys',
 )
 PROPS['C02'] = dict(
     level='exploration', rule=TREE_RULE + '; labels record the unlink case and whether a black node left the tree', assumptions=TREE_ASSUME,
-    units=lambda tier, seed: [Unit('rbt', 'exec/trees.cc', ['rbt.c'], exec_defs=['-DVP_PROP=2'], tape_len=400)] +
+    units=lambda tier, seed: [Unit('rbt', 'exec/trees.cc', ['rbt.c'], exec_defs=['-DVP_PROP=2'], tape_len=400),
+                              Unit('rbt-unpacked', 'exec/trees.cc', ['rbt.c'], defs=UNPACKED, exec_defs=['-DVP_PROP=2'], tape_len=400, config=UNPACKED_CFG)] +
     ([Unit('rbt-O2', 'exec/trees.cc', ['rbt.c'], exec_defs=['-DVP_PROP=2'], tape_len=600, opt='-O2', fuzz=False)] if tier == 'thorough' else []),
-    plan={'quick': dict(rc_procs=10, rc_cases=6000, fuzz_procs=6, fuzz_secs=25),
-          'thorough': dict(rc_procs=8, rc_cases=60000, fuzz_procs=8, fuzz_secs=240)},
+    plan={'quick': dict(rc_procs=6, rc_cases=6000, fuzz_procs=3, fuzz_secs=25),
+          'thorough': dict(rc_procs=6, rc_cases=60000, fuzz_procs=5, fuzz_secs=240)},
     technique='model-based stateful property-based testing (rapidcheck choice tapes, std::map model, red-black invariant walk after every call) + coverage-guided libFuzzer under ASan/UBSan',
     level_text='generated histories against a reference model; root colour, red-red, black-height, order and parent links are checked after every call; sampling, not proof',
     level_note='trusts the std::map model and the invariant walker in exec/trees.cc; the -O2 unit (thorough) exercises the A_ASSUME code generation',
@@ -62,7 +68,9 @@ PROPS['C03'] = dict(
          'non-trivial = final tree with >= 5 nodes having a left-only and a right-only internal node; distinct = hash of the decoded history (a) / distinct tree shapes (b)',
     assumptions=TREE_ASSUME + ['reference traversals are recursive walks over the same links; link integrity itself is C01/C02'],
     units=lambda tier, seed: [Unit('avl', 'exec/trees.cc', ['avl.c', 'rbt.c'], exec_defs=['-DVP_PROP=3'], tape_len=300, enum=True),
-                              Unit('rbt', 'exec/trees.cc', ['avl.c', 'rbt.c'], exec_defs=['-DVP_PROP=3', '-DVP_RBT'], tape_len=300, enum=True)],
+                              Unit('rbt', 'exec/trees.cc', ['avl.c', 'rbt.c'], exec_defs=['-DVP_PROP=3', '-DVP_RBT'], tape_len=300, enum=True),
+                              Unit('avl-unpacked', 'exec/trees.cc', ['avl.c', 'rbt.c'], defs=UNPACKED, exec_defs=['-DVP_PROP=3'], tape_len=300, fuzz=False, config=UNPACKED_CFG),
+                              Unit('rbt-unpacked', 'exec/trees.cc', ['avl.c', 'rbt.c'], defs=UNPACKED, exec_defs=['-DVP_PROP=3', '-DVP_RBT'], tape_len=300, fuzz=False, config=UNPACKED_CFG)],
     plan={'quick': dict(rc_procs=4, rc_cases=5000, fuzz_procs=2, fuzz_secs=20, enum_shards=2, enum_tier=0),
           'thorough': dict(rc_procs=4, rc_cases=50000, fuzz_procs=4, fuzz_secs=180, enum_shards=8, enum_tier=1)},
     has_enum=True,
